@@ -373,8 +373,10 @@ fn ev_value(log: &mut Log, loc: &Locale) {
         (0..ids.len()).any(|n| ids.is_char_boundary(n) && loc.id == &ids[..n])
             || loc.id == format!("{}-", ids).as_str() || loc.id == format!("{}-x", ids).as_str() || loc.id == ids.to_ascii_uppercase().as_str() && ids.to_ascii_uppercase() != ids
     }), Ok(true));
+    // ... and it does hold for the canonical text itself, at any length
+    let own_str_ne = !matches!(guard(|| loc.id == ids.as_str()), Ok(true));
     log.ev(json!({"op":"value","st": proj_loc(loc),"ser": b(&ser),"reparse_ok": reparse_ok,"ext_reparse_ok": ext_ok,"parts_ok": parts_ok,
-                  "same_text_equal": same_text_equal, "foreign_str_eq": foreign_str_eq}));
+                  "same_text_equal": same_text_equal, "foreign_str_eq": foreign_str_eq || own_str_ne}));
 }
 
 // ---- argument pools for histories: valid, boundary, invalid ------------------------------------
@@ -526,7 +528,11 @@ fn drive_parse(r: &mut Rng, n: usize, log: &mut Log) {
     for kind in 0..9usize.min(n / 100) {
         let input = gen_long(r, kind);
         ev_li_parse(log, &input);
-        ev_loc_parse(log, &input);
+        // the value-level obligations (round trips, == / hash / cmp, == &str) on the long value too
+        if let Some(l) = ev_loc_parse(log, &input) {
+            log.ev(json!({"op":"start","in": bytes(&input),"out":{"k":"ok"},"st": proj_loc(&l)}));
+            ev_value(log, &l);
+        }
     }
     for _ in 0..n {
         let toks = gen_locale_tokens(r);
